@@ -163,7 +163,7 @@ PROPS["C05"] = {
 PROPS["C15"] = {
     "level": "translation_validation",
     "technique": "executable Lean model computes the first key-generation candidates from the seed (ChaCha12 + sampler) and is compared with the real ntru_gen; translator scan of every entropy/clock/global-state use (theorem: only SecretKey::generate and sign); byte comparison of keys across threads, processes and build profiles; sampled seed-bit sensitivity",
-    "rule": "programs = (seed, variant) pairs: keygen_digest (serialized key pair) recomputed in the same thread, a fresh thread, a fresh thread after interleaved keygen+sign, and in a second process built with a different profile; first_candidate computed by the Lean model from the seed and by the real code, with 24 (thorough: all 256) single-bit seed flips required to change it; distinct by op line",
+    "rule": "programs = (seed, variant) pairs: keygen_digest (serialized key pair) recomputed in the same thread, a fresh thread, a fresh thread after interleaved keygen+sign, and in a second process built with a different profile and with a different history (the first process starts with a Falcon-512 key generation, the second with a Falcon-1024 one); seeds of extreme byte values (0xff.., 0x80.., 0x7f..: bits 0-7, 128-135, 248-255 flipped); first_candidate computed by the Lean model from the seed and by the real code, with 24 (thorough: all 256) single-bit seed flips required to change it; first_drawn: the first candidate the real gen_b0(seed) draws (trace) = the model's candidate for the unchanged seed; distinct by op line",
     "exhaustive": {"quick": (False, ""), "thorough": (False, "")},
     "level_text": "Determinism is definitional in the model; the assurance is the validated tie: the model's seed->candidate computation equals the real one on every run, no entropy source is reachable from generate_from_seed (kernel-checked over the translator's scan), and keys are byte-identical across threads, processes and profiles. Seed sensitivity is sampled, not proved.",
     "level_note": "Trusted: ChaCha12/StdRng transcription (validated per run), the translator's textual scan, the OS process boundary.",
@@ -254,6 +254,6 @@ NOT_YET = {k: "check not built yet in this session (planned in DESIGN.md §7/§8
 
 # which extraction items (translator modules / groups of Params) each property's theorems and model depend on:
 # only these count as a broken tie for that property
-TIES = {'C01': ['Params/variants', 'Params/verify', 'Params/sign', 'Params/codec', 'Params/sigformat', 'Params/hash', 'Params/field', 'Params/keygen', 'FeltTables'], 'C02': ['Params/variants', 'Params/verify', 'Params/codec', 'Params/hash', 'Params/field', 'Params/pkformat', 'Params/sigformat', 'FeltTables'], 'C03': ['Params/codec', 'Params/skformat', 'Params/pkformat', 'Params/sigformat', 'Params/verify', 'Params/variants', 'Params/field', 'FeltTables'], 'C04': ['Params/keygen', 'Params/field', 'Params/variants', 'FeltTables', 'U32Tables'], 'C05': ['Params/skformat', 'Params/pkformat', 'Params/sigformat', 'Params/keygen', 'Params/field', 'Params/variants', 'FeltTables'], 'C06': ['Params/skformat', 'Params/pkformat', 'Params/sigformat', 'Params/field', 'Params/variants'], 'C07': ['Params/codec'], 'C08': ['Params/sign', 'Params/sigformat', 'Scan'], 'C09': ['Sampler'], 'C10': ['Params/variants', 'Params/sign', 'Params/keygen', 'CplxTable', 'Sampler'], 'C11': ['FeltTables', 'Params/field'], 'C12': ['Params/field'], 'C13': ['CplxTable'], 'C14': ['Params/hash', 'Params/field'], 'C15': ['Scan', 'Sampler', 'Params/keygen'], 'C16': ['Params/skformat', 'Params/pkformat', 'Params/sigformat', 'Params/field', 'Params/keygen', 'Params/hash', 'Params/codec', 'Params/verify', 'Params/variants'], 'C17': ['U32Tables', 'Params/field']}
+TIES = {'C01': ['Params/variants', 'Params/verify', 'Params/sign', 'Params/codec', 'Params/sigformat', 'Params/hash', 'Params/field', 'Params/keygen', 'FeltTables'], 'C02': ['Params/variants', 'Params/verify', 'Params/codec', 'Params/hash', 'Params/field', 'Params/pkformat', 'Params/sigformat', 'FeltTables'], 'C03': ['Params/codec', 'Params/skformat', 'Params/pkformat', 'Params/sigformat', 'Params/verify', 'Params/variants', 'Params/field', 'FeltTables'], 'C04': ['Params/keygen', 'Params/field', 'Params/variants', 'FeltTables', 'U32Tables'], 'C05': ['Params/skformat', 'Params/pkformat', 'Params/sigformat', 'Params/keygen', 'Params/field', 'Params/variants', 'FeltTables'], 'C06': ['Params/skformat', 'Params/pkformat', 'Params/sigformat', 'Params/field', 'Params/variants'], 'C07': ['Params/codec'], 'C08': ['Params/sign', 'Params/sigformat', 'Scan'], 'C09': ['Sampler'], 'C10': ['Params/variants', 'Params/sign', 'Params/keygen', 'CplxTable', 'Sampler'], 'C11': ['FeltTables', 'Params/field'], 'C12': ['Params/field'], 'C13': ['CplxTable'], 'C14': ['Params/hash', 'Params/field'], 'C15': ['Scan', 'Sampler', 'Params/keygen'], 'C16': ['Params/skformat', 'Params/pkformat', 'Params/sigformat', 'Params/field', 'Params/keygen', 'Params/hash', 'Params/codec', 'Params/verify', 'Params/variants', 'Params/sign'], 'C17': ['U32Tables', 'Params/field']}
 for _k, _v in TIES.items():
     PROPS[_k]["ties"] = _v
